@@ -33,7 +33,7 @@ func init() {
 		},
 		Run:          runC06,
 		BeatTimeoutS: 60,
-		Required:     []string{"within_limit_read_in_full", "over_limit_refused", "close_1009_seen", "alloc_probes", "compressed_targets", "limit_changed_mid_connection", "reads_retried_after_limit_error", "crossing_frames_whose_payload_never_arrives"},
+		Required:     []string{"within_limit_read_in_full", "over_limit_refused", "close_1009_seen", "alloc_probes", "compressed_targets", "limit_changed_mid_connection", "reads_retried_after_limit_error", "crossing_frames_whose_payload_never_arrives", "breaches_while_another_goroutine_writes"},
 		Assumptions: []string{
 			"the limit is counted in payload bytes on the wire (compressed size for compressed messages); the <=L delivered-bytes bound is judged for uncompressed messages only",
 			"allocation is measured with runtime.MemStats.TotalAlloc in a worker that runs one case at a time",
@@ -77,7 +77,90 @@ type c06Case struct {
 	Withheld bool `json:"payload_of_crossing_frame_withheld,omitempty"`
 }
 
+// c06WhileWriting: the breach is found while another goroutine is sending messages through a
+// transport that takes a few hundred microseconds per write. The best-effort 1009 waits up to a
+// second for the connection; writes this short never keep it that long, so the close is owed.
+func c06WhileWriting(ctx *core.Ctx, out *core.Out) {
+	r := ctx.R
+	server := r.Bool()
+	L := int64(r.Range(10, 2000))
+	mk := func(op int, fin bool, p []byte) wire.Frame {
+		f := wire.Frame{Op: op, Fin: fin, Masked: server, Payload: p}
+		if server {
+			f.Key = maskKey(r)
+		}
+		return f
+	}
+	ok := r.Payload(gen.PCounter, int(L))
+	var frames []wire.Frame
+	frames = append(frames, mk(2, true, ok))
+	big := r.Payload(gen.PText, int(L)+r.Range(1, 50))
+	h := len(big) / 2
+	frames = append(frames, mk(1, false, big[:h]), mk(0, true, big[h:]))
+	nc := xport.New(xport.Rechunk(wire.Encode(frames), r.Intn(xport.NChunkStyles), r))
+	nc.Block = true
+	nc.DawdleFn = func() { time.Sleep(300 * time.Microsecond) }
+	c := ws.VerifNewConn(nc, server, r.BufSize(), 512, nil, nil, false)
+	c.SetReadLimit(L)
+	stop := make(chan struct{})
+	done := make(chan struct{})
+	go func() {
+		defer close(done)
+		p := bytes.Repeat([]byte("w"), 200)
+		for {
+			select {
+			case <-stop:
+				return
+			default:
+			}
+			if c.WriteMessage(2, p) != nil {
+				return
+			}
+		}
+	}()
+	desc := map[string]interface{}{"family": "breach while another goroutine writes", "server": server, "limit": L}
+	out.Eval(fmt.Sprintf("c06w|%v|%d|%d", server, L, len(big)), true)
+	_, got, err := c.ReadMessage()
+	if err != nil || !bytes.Equal(got, ok) {
+		close(stop)
+		<-done
+		nc.Close()
+		out.Violate("C06:within-limit-message-refused", fmt.Sprintf("a message of exactly L=%d bytes failed while another goroutine was writing: %v", L, err), desc)
+		return
+	}
+	_, _, err = c.ReadMessage()
+	// give the writer a moment to run into the close (it stops by itself once the close is sent)
+	select {
+	case <-done:
+	case <-time.After(3 * time.Second):
+	}
+	close(stop)
+	<-done
+	nc.Close()
+	out.Count("breaches_while_another_goroutine_writes", 1)
+	if !errors.Is(err, ws.ErrReadLimit) {
+		out.Violate("C06:over-limit-wrong-error", fmt.Sprintf("over-limit message failed with %v, expected ErrReadLimit", err), desc)
+		return
+	}
+	wf, _, _ := wire.Decode(nc.Written())
+	n1009 := 0
+	for _, f := range wf {
+		if f.Op == 8 {
+			if code, _, _ := wire.CloseBody(f.Payload); code == 1009 {
+				n1009++
+			}
+		}
+	}
+	if n1009 != 1 {
+		out.Violate("C06:close-1009-missing-while-writing", fmt.Sprintf("%d close frames with status 1009 on the wire (%d frames in all); the writer's transport writes take 300 us each, far less than the second the reply may wait", n1009, len(wf)), desc)
+	}
+}
+
 func runC06(ctx *core.Ctx, out *core.Out) {
+	if ctx.Idx%25 == 11 {
+		c06WhileWriting(ctx, out)
+		return
+	}
 	r := ctx.R
 	if ctx.Idx%7 == 3 {
 		c06Compressed(ctx, out)
@@ -451,6 +534,10 @@ func runC06(ctx *core.Ctx, out *core.Out) {
 	}
 	closes := 0
 	for _, f := range wf {
+		if f.Masked == cs.Server {
+			fail("reply-frame-wrong-masking", fmt.Sprintf("the %s wrote a frame (%s) with MASK=%v: a conformant peer rejects it and never learns the status", map[bool]string{true: "server", false: "client"}[cs.Server], f.String(), f.Masked))
+			return
+		}
 		if f.Op == 8 {
 			closes++
 			code, _, _ := wire.CloseBody(f.Payload)
